@@ -98,8 +98,9 @@ type Task struct {
 	lastSite    int   // site at which the task last gave up the baton
 	interrupted bool  // Fair: pre-empted by a timer wake-up, resumes first with the rest of its quantum
 	qRemain     int64
-	stalled     bool // sleeping because of an injected sync-point stall
-	condWait    bool // parked in Cond.Wait
+	stalled     bool  // sleeping because of an injected sync-point stall
+	waitFrom    int64 // virtual time since when the task has been kept off the CPU involuntarily (-1: not waiting)
+	condWait    bool  // parked in Cond.Wait
 	wokeAt      int64
 	MaxLate     int64 // largest lateness of a wake-up
 	MaxBusy     int64 // largest virtual time between a wake-up and the next Sleep call
@@ -143,42 +144,43 @@ type Stats struct {
 }
 
 type World struct {
-	rng      uint64
-	Cfg      Config
-	Tasks    []*Task
-	ntasks   int
-	cur      *Task
-	Vnow     int64
-	seq      uint64
-	timers   []timer
-	ntimers  int
-	nextEv   int64
-	nextPre  int64
-	Steps    int64
-	done     chan struct{}
-	wg       sync.WaitGroup
-	Hash     uint64 // every scheduling decision
-	IHash    uint64 // (task, site) sequence at real context switches only: the interleaving
-	Stop     int
-	StopTask int
-	StopSite int
-	St       Stats
-	preArmed []int64 // absolute steps of armed pre-emptions
-	npre     int
-	preNext  int // next Cfg.Preempts entry waiting for its sync count
-	qEnd     int64
-	vLimit   int64 // world virtual-time limit (0 = none)
-	pools    []*Pool
-	npools   int
-	epoch    uint64
-	trace    []int64
-	ntrace   int
-	pairs    []uint64 // adjacent (site,site) pairs at context switches
-	npairs   int
-	lastSite int
-	userMax  int64
-	finished int
-	inflight int
+	rng        uint64
+	Cfg        Config
+	Tasks      []*Task
+	ntasks     int
+	cur        *Task
+	Vnow       int64
+	seq        uint64
+	timers     []timer
+	ntimers    int
+	nextEv     int64
+	nextPre    int64
+	Steps      int64
+	done       chan struct{}
+	wg         sync.WaitGroup
+	Hash       uint64 // every scheduling decision
+	IHash      uint64 // (task, site) sequence at real context switches only: the interleaving
+	Stop       int
+	StopTask   int
+	StopSite   int
+	St         Stats
+	preArmed   []int64 // absolute steps of armed pre-emptions
+	npre       int
+	preNext    int // next Cfg.Preempts entry waiting for its sync count
+	qEnd       int64
+	vLimit     int64 // world virtual-time limit (0 = none)
+	pools      []*Pool
+	npools     int
+	epoch      uint64
+	trace      []int64
+	ntrace     int
+	pairs      []uint64 // adjacent (site,site) pairs at context switches
+	npairs     int
+	lastSite   int
+	userMax    int64
+	finished   int
+	inflight   int
+	maxDesched int64 // longest time any task was kept off the CPU involuntarily (runnable but not chosen, or stalled)
 }
 
 var W *World
@@ -293,7 +295,7 @@ func (w *World) newTask(name string, site int, cost int64) *Task {
 	if cost < 1 {
 		cost = 1
 	}
-	t := &Task{ID: w.ntasks, Name: name, Site: site, wake: make(chan struct{}, 1), Cost: cost, Exited: -1, Started: w.Vnow, wokeAt: w.Vnow, readyAt: w.Steps}
+	t := &Task{ID: w.ntasks, Name: name, Site: site, wake: make(chan struct{}, 1), Cost: cost, Exited: -1, Started: w.Vnow, wokeAt: w.Vnow, readyAt: w.Steps, waitFrom: w.Vnow}
 	if w.ntasks == len(w.Tasks) {
 		n := make([]*Task, 2*len(w.Tasks)+8)
 		for i := 0; i < w.ntasks; i++ {
@@ -577,6 +579,11 @@ func (w *World) yield(t *Task, site int) { w.yieldKind(t, site, 0) }
 //go:norace
 func (w *World) yieldKind(t *Task, site int, kind int) {
 	w.St.Yields++
+	if t.state == stRunnable || t.stalled {
+		t.waitFrom = w.Vnow // pre-empted, switched away from, or stalled: involuntary
+	} else {
+		t.waitFrom = -1 // sleeping or blocked: voluntary, until it is woken
+	}
 	w.mix(int64(t.ID), int64(site), w.Vnow)
 	w.lastSite = site
 	w.reschedKind(t, site, kind)
@@ -640,6 +647,12 @@ func (w *World) reschedKind(t *Task, site int, kind int) {
 func (w *World) dispatch(t *Task) {
 	w.cur = t
 	t.state = stRunning
+	if t.waitFrom >= 0 {
+		if g := w.Vnow - t.waitFrom; g > w.maxDesched {
+			w.maxDesched = g
+		}
+	}
+	t.waitFrom = -1
 	if w.Cfg.Quantum > 0 {
 		w.qEnd = w.Steps + w.Cfg.Quantum
 		if t.interrupted {
@@ -668,9 +681,11 @@ func (w *World) pick(from *Task, kind int) *Task {
 			tm.t.state = stRunnable
 			tm.t.readyAt = w.Steps
 			if tm.t.stalled {
-				// end of a sync-point stall: the task's busy interval (wake-up .. next Sleep) keeps running
+				// end of a sync-point stall: the task's busy interval (wake-up .. next Sleep) keeps running,
+				// and so does the interval it has been off the CPU
 				tm.t.stalled = false
 			} else {
+				tm.t.waitFrom = w.Vnow
 				tm.t.wokeAt = w.Vnow
 				if late := w.Vnow - tm.t.sleepAt; late > tm.t.MaxLate {
 					tm.t.MaxLate = late
@@ -1212,6 +1227,7 @@ func (m *Mutex) Unlock() {
 		if x.state == stBlocked {
 			x.state = stRunnable
 			x.readyAt = w.Steps
+			x.waitFrom = w.Vnow
 		}
 		m.waiters[i] = nil
 	}
@@ -1249,6 +1265,7 @@ func (m *RWMutex) wakeAll(w *World) {
 		if x.state == stBlocked {
 			x.state = stRunnable
 			x.readyAt = w.Steps
+			x.waitFrom = w.Vnow
 		}
 		m.waiters[i] = nil
 	}
@@ -1391,6 +1408,7 @@ func (g *WaitGroup) Add(d int) {
 			if x.state == stBlocked {
 				x.state = stRunnable
 				x.readyAt = w.Steps
+				x.waitFrom = w.Vnow
 			}
 			g.waiters[i] = nil
 		}
@@ -1671,6 +1689,7 @@ func (b *Barrier) Wait() {
 			if x.state == stBlocked {
 				x.state = stRunnable
 				x.readyAt = w.Steps
+				x.waitFrom = w.Vnow
 			}
 			b.waiters[i] = nil
 		}
@@ -1817,6 +1836,7 @@ func (c *Cond) wake(n int) {
 			if x.state == stBlocked {
 				x.state = stRunnable
 				x.readyAt = w.Steps
+				x.waitFrom = w.Vnow
 			}
 			c.waiters[i] = nil
 			k++
@@ -1884,4 +1904,16 @@ func (m *Map) Range(f func(k, v any) bool) {
 			return
 		}
 	}
+}
+
+// MaxDesched is the longest time any task has been kept off the CPU involuntarily so far: runnable but not
+// chosen by the scheduler, or held by an injected stall.  (Timing oracles subtract it: code that reads a
+// clock another task was about to advance sees a value that much older.)
+//
+//go:norace
+func MaxDesched() int64 {
+	if W == nil {
+		return 0
+	}
+	return W.maxDesched
 }
